@@ -83,6 +83,7 @@ type c43fsChain struct {
 	first     uint32 // first height committed by the binary under test
 	checkFrom uint32 // first height whose logs the property speaks about: max(a, first)
 	tip       uint32
+	next      uint32 // height being committed (0: none)
 	restarted bool
 	reported  map[string]bool
 }
@@ -134,6 +135,7 @@ func (c *c43fsChain) commit(h uint32) {
 	if h >= c.a {
 		bloom = ethtypes.BytesToBloom(ethtypes.LogsBloom(c43fsLogs(h)))
 	}
+	c.next = h
 	c.bs.NewBatch()
 	err := c.bs.SaveCurrentBlock(h, c43fsHash(h))
 	c.r.Need(err == nil, "SaveCurrentBlock: %v", err)
@@ -142,6 +144,7 @@ func (c *c43fsChain) commit(h uint32) {
 	err = c.bs.CommitTo()
 	c.r.Need(err == nil, "CommitTo: %v", err)
 	c.tip = h
+	c.next = 0
 }
 
 func c43fsData(l *ethtypes.Log) [][]byte {
@@ -423,11 +426,14 @@ func c43fsRun(r *vh.Run, y c43fsCase) {
 		c.checkAll()
 	})
 	if p != "" {
-		key := "panic:mid-section"
-		if (c.tip+2)%BloomBitsBlocks == 0 {
-			key = "panic:committing-last-block-of-section"
+		key := "panic:outside-commit"
+		if c.next != 0 {
+			key = "panic:committing-mid-section-block"
+			if (c.next+1)%BloomBitsBlocks == 0 {
+				key = "panic:committing-last-block-of-section"
+			}
 		}
-		c.viol(key, "panic after tip %d: %s", c.tip, p)
+		c.viol(key, "panic while committing height %d: %s", c.next, p)
 	}
 }
 
@@ -497,10 +503,12 @@ func TestVerif_C43_filterstart(t *testing.T) {
 	r.Bound("quick: networks {main net, polaris, solo, unlisted id 7} with shipped constants + main net variable at {1,4095,4096,4097}; starts {fresh,below} x schedules {never, all six, a-1, a, E}, start legacy x {never, all six}. thorough: starts {fresh,below,legacy}; both activation variables at {0,1,2,2048,4094,4095,4096,4097,8191,8192,8193,3398*4096,3398*4096+4095}; schedules {never, all six, each single point}")
 	r.Assume("heights below both a's section and the persisted filter start are not driven (SaveBloomData ignores heights below the filter start); blocks below the activation height carry no EVM log (EIP-155 transactions are refused there); blocks written by the earlier release in the below/legacy starts are not judged; go-ethereum's Bloom.Test, LogsBloom and bitutil are trusted")
 
-	var rc c43fsCase
-	if r.ReplayCase(&rc) && rc.Start != "" {
-		c43fsRun(r, rc)
-		return
+	if r.IsReplay() {
+		var rc c43fsCase
+		if r.ReplayCase(&rc) && rc.Start != "" {
+			c43fsRun(r, rc)
+		}
+		return // otherwise: a recorded case of the unit bloom
 	}
 	cases := c43fsCases(r)
 	if r.R.Shard == 0 {
